@@ -73,7 +73,7 @@ LATTICES3 = [
 ]
 LATTICE4_EXTRA = [(-12, 12), (12, -12), (24, 24), (-24, -12)]
 
-COMPS_QUICK = [("bq", (1, 0, 0, 1, 12, -12)), ("bq", (-1, 0, 0, 0.5, 0, 24))]
+COMPS_QUICK = [("bq", (1, 0, 0, 1, 12, -12)), ("bq", (-1, 0, 0, 0.5, 0, 24)), ("nq", (1, 0, 0, 1, 0, 12))]  # nq: a base glyph that is itself a composite
 COMPS_MORE = [("bq", (0, 1, -1, 0, 6, 6)), ("bq", (2.5, 0, 0, 1, 0, 0))]
 
 # base glyph used by components (quadratic + line, closed, counter-clockwise)
@@ -167,8 +167,22 @@ class _BaseGlyph:
         M.feed_pts(BASE_PTS[self.name], pen)
 
 
+class _NestedGlyph:
+    """a base glyph that is itself a composite: one component of 'bq', moved"""
+
+    T = (1, 0, 0, 1, 24, 0)
+
+    def draw(self, pen):
+        pen.addComponent("bq", self.T)
+
+    def drawPoints(self, pen):
+        pen.addComponent("bq", self.T)
+
+
 GLYPHSET = {n: _BaseGlyph(n) for n in BASE_SEG}
+GLYPHSET["nq"] = _NestedGlyph()
 GLYPHSET_ABS = {n: M.interp_seg(c)[0] for n, c in BASE_SEG.items()}
+GLYPHSET_ABS["nq"] = M.amap(GLYPHSET_ABS["bq"], lambda p: M.affine(_NestedGlyph.T, p))
 
 
 class _Private:
